@@ -8,7 +8,8 @@
 From RU Require Import Base.Prelude Base.Utf8 Model.AsciiSet Gen.Tables Model.PercentEncoding
   Model.HostT Model.UrlRecord Model.Parser Model.KnownC01 Spec.Whatwg
   Proofs.C01_Tables Proofs.C01_Override
-  Model.Setters Proofs.C08_Input Proofs.C01_EqRun Proofs.C01_EqEnc Proofs.C01_EqApi Proofs.C01_EqOpaque Proofs.C01_EqClasses.
+  Model.Setters Proofs.C08_Input Proofs.C01_EqRun Proofs.C01_EqEnc Proofs.C01_EqApi Proofs.C01_EqOpaque Proofs.C01_EqRef Proofs.C01_EqClasses
+  Model.WF Proofs.C02_Opaque.
 
 (* (a) the percent-encode sets applied by the parser are the Standard's, for every byte *)
 Theorem C01_sets : forall b, b < 256 ->
@@ -139,6 +140,92 @@ Example C01_eq_opaque_nonvacuous :
      | POk u, BDone su =>
          api_of_model true u = Some (spec_api_list toy_shs su)
          /\ q_href u = [109; 97; 105; 108; 116; 111; 58; 120; 32; 37; 67; 51; 37; 65; 57; 63; 113; 39; 35; 102; 37; 54; 48]
+     | _, _ => False
+     end.
+Proof. vm_compute. repeat split. Qed.
+
+(* ---------- references against a base ---------- *)
+(* `related dbg shs b sb` (Proofs/C01_EqRef.v): b satisfies the structural invariant wf_b, b and sb have
+   the same ten API strings, the same text in front of the fragment / the query, the same scheme, agree
+   on "cannot be a base" / "has an opaque path", and sb has no host/credentials/port where the
+   Standard's states assume so.  Parse results of the opaque class are related (C01_eq_opaque_related),
+   and the results of the two classes below are related again, so the theorems chain. *)
+Theorem C01_eq_opaque_related : forall dbg hp hpo hd ovr shp shs input,
+  usv_list input -> in_class_opaque input = true ->
+  agree_rel dbg shs (parse_url dbg hp hpo hd ovr None input) (spec_basic_url_parse shp input None).
+Proof. exact class_opaque_related. Qed.
+Print Assumptions C01_eq_opaque_related.
+
+(* "#fragment" (cleaned reference starts with '#') against ANY related base, also one that cannot be
+   a base *)
+Theorem C01_eq_fragment_only : forall dbg hp hpo hd shp shs input b sb,
+  usv_list input -> related dbg shs b sb -> in_class_fragment_only input = true ->
+  agree_rel dbg shs (parse_url dbg hp hpo hd None (Some b) input) (spec_basic_url_parse shp input (Some sb)).
+Proof. exact class_fragment_only. Qed.
+Check C01_eq_fragment_only : forall dbg hp hpo hd shp shs input b sb,
+  usv_list input -> related dbg shs b sb -> starts_with_cp 35 (spec_clean input) = true ->
+  exists su, spec_basic_url_parse shp input (Some sb) = BDone su
+    /\ (parse_url dbg hp hpo hd None (Some b) input = PErr Overflow
+        \/ exists u, parse_url dbg hp hpo hd None (Some b) input = POk u /\ related dbg shs u su).
+Print Assumptions C01_eq_fragment_only.
+
+(* "?query[#fragment]" against a related base without opaque path (special, file or not) *)
+Theorem C01_eq_query_only : forall dbg hp hpo hd shp shs input b sb,
+  usv_list input -> related dbg shs b sb -> in_class_query_only sb input = true ->
+  agree_rel dbg shs (parse_url dbg hp hpo hd None (Some b) input) (spec_basic_url_parse shp input (Some sb)).
+Proof. exact class_query_only. Qed.
+Print Assumptions C01_eq_query_only.
+
+(* no scheme, not "#...", base with an opaque path: the Standard returns failure, the model
+   Err(RelativeUrlWithCannotBeABaseBase) *)
+Theorem C01_eq_opaque_base_fail : forall dbg hp hpo hd shp shs input b sb,
+  related dbg shs b sb -> in_class_opaque_base_fail sb input = true ->
+  (exists u, spec_basic_url_parse shp input (Some sb) = BFailure u)
+  /\ parse_url dbg hp hpo hd None (Some b) input = PErr RelativeUrlWithCannotBeABaseBase.
+Proof. exact class_opaque_base_fail. Qed.
+Print Assumptions C01_eq_opaque_base_fail.
+
+(* the classes assembled: C01_statement restricted to in_proved_class, with `related` bases and the
+   named Overflow disjunct (see `agree`) *)
+Theorem C01_partial : forall dbg hp hpo hd shp shs input base sbase,
+  usv_list input -> base_rel dbg shs base sbase -> in_proved_class sbase input = true ->
+  agree dbg shs (parse_url dbg hp hpo hd None base input) (spec_basic_url_parse shp input sbase).
+Proof. exact partial_equivalence. Qed.
+Print Assumptions C01_partial.
+
+(* non-vacuity: the base "mailto:x" (a parse result of the opaque class) and the base "a:/p?x#y" are
+   related to the Standard's records; "#f", "?q#g" and "z" against them are in the classes and both
+   sides are evaluated *)
+Definition ex_b1 : url := opaque_url [109; 97; 105; 108; 116; 111] [120] None None.
+Definition ex_sb1 : spec_url := spec_opaque_url [109; 97; 105; 108; 116; 111] [120] None None.
+Definition ex_b2 : url := mkUrl [97; 58; 47; 112; 63; 120; 35; 121] 1 2 2 2 HI_None None 2 (Some 4) (Some 6).
+Definition ex_sb2 : spec_url := mkSUrl [97] [] [] None None (SPList [[112]]) (Some [120]) (Some [121]).
+
+Example C01_related_nonvacuous : related true toy_shs ex_b1 ex_sb1 /\ related true toy_shs ex_b2 ex_sb2.
+Proof.
+  split; constructor; try (vm_compute; reflexivity);
+    (split; intros H; try discriminate H; repeat split; reflexivity).
+Qed.
+
+Example C01_eq_refs_nonvacuous :
+  in_class_fragment_only [32; 35; 9; 102; 32] = true
+  /\ in_class_query_only ex_sb2 [63; 113; 10; 35; 103] = true
+  /\ in_class_opaque_base_fail ex_sb1 [122] = true
+  /\ match parse_url true toy_hp toy_hp toy_hd None (Some ex_b1) [32; 35; 9; 102; 32],
+           spec_basic_url_parse toy_shp [32; 35; 9; 102; 32] (Some ex_sb1) with
+     | POk u, BDone su => api_of_model true u = Some (spec_api_list toy_shs su)
+                          /\ q_href u = [109; 97; 105; 108; 116; 111; 58; 120; 35; 102]
+     | _, _ => False
+     end
+  /\ match parse_url true toy_hp toy_hp toy_hd None (Some ex_b2) [63; 113; 10; 35; 103],
+           spec_basic_url_parse toy_shp [63; 113; 10; 35; 103] (Some ex_sb2) with
+     | POk u, BDone su => api_of_model true u = Some (spec_api_list toy_shs su)
+                          /\ q_href u = [97; 58; 47; 112; 63; 113; 35; 103]
+     | _, _ => False
+     end
+  /\ match parse_url true toy_hp toy_hp toy_hd None (Some ex_b1) [122],
+           spec_basic_url_parse toy_shp [122] (Some ex_sb1) with
+     | PErr _, BFailure _ => True
      | _, _ => False
      end.
 Proof. vm_compute. repeat split. Qed.
